@@ -40,6 +40,7 @@
 //! # }
 //! ```
 
+use crate::node::SharedNode;
 use crate::constants::MAX_BLACKBOARD_KEY_SIZE;
 use crate::identifiers::UniqueWriterId;
 use crate::port::port_name::PortName;
@@ -155,6 +156,9 @@ pub struct Writer<
     // Otherwise the process might crash during cleanup, has already removed the tag but other resources
     // are still existing. This would make a cleanup from another process impossible.
     port_tag: Service::StaticStorage,
+    // Keeps the node alive until the port tag is removed. If the port is the last owner of the
+    // node, the node could otherwise not remove its directory since it still contains the tag.
+    _shared_node: SharedNode<Service>,
 }
 
 impl<
@@ -170,6 +174,7 @@ impl<
             ))
         };
         unsafe { Service::StaticStorage::abandon_in_place(NonNull::from_mut(&mut this.port_tag)) };
+        unsafe { SharedNode::abandon_in_place(NonNull::from_mut(&mut this._shared_node)) };
     }
 }
 
@@ -197,6 +202,7 @@ impl<
                         "{msg} since the port tag, that is required for cleanup, could not be created. [{e:?}]");
             }
         };
+        let shared_node = service.shared_node().clone();
 
         let shared_state = Service::ArcThreadSafetyPolicy::new(WriterSharedState {
             service_state: service.clone(),
@@ -237,6 +243,7 @@ impl<
             shared_state,
             writer_details: unsafe { &*details },
             port_tag,
+            _shared_node: shared_node,
         })
     }
 
